@@ -493,14 +493,17 @@ func (c *Check) treeConditionAgreement() {
 	if ntg == nil || ng == nil {
 		return
 	}
-	formats := func(f *ssa.Function) (map[int64]bool, bool) {
+	formats := func(f0 *ssa.Function) (map[int64]bool, bool) {
 		out := map[int64]bool{}
 		// the block that tests the call_tree option; the format tests that refine it are those
-		// reached only through its taken branch
+		// reached only through its taken branch (the test may live in a predicate helper)
 		var gate *ssa.BasicBlock
-		for _, b := range f.Blocks {
-			if iff, ok := b.Instrs[len(b.Instrs)-1].(*ssa.If); ok && isFieldLoad(iff.Cond, "report.Options", "CallTree") {
-				gate = b
+		f := f0
+		for _, g := range withHelpers(f0, 2) {
+			for _, b := range g.Blocks {
+				if iff, ok := b.Instrs[len(b.Instrs)-1].(*ssa.If); ok && isFieldLoad(iff.Cond, "report.Options", "CallTree") && (gate == nil || g == f0) {
+					gate, f = b, g
+				}
 			}
 		}
 		if gate == nil {
